@@ -84,3 +84,83 @@ META["C16"] = {
                    "Exhaustive per input over fault positions, sampled over inputs/schemas."),
     "level_note": "Trusted: the fault-injecting reader of the harness. io.EOF after a fault is accepted as terminal (counted, see evidence counters).",
 }
+
+add("C10", "TestC10",
+    rule=("Cases: gen.Shape (7 formats, record-relative transforms only: pass-through / templates+custom funcs / javascript) with 0-8 "
+          "records (normal, failing int cast, filtered), a split point, a permutation and a replacement record that fails in one of "
+          "three ways (type cast, two xpath matches [xml], custom function error [javascript throw]). Oracle: out(r1..rn) = "
+          "out(r1)++...++out(rn) (single-record runs), out(A++B) = out(A)++out(B), out(perm R) = perm out(R), replacement changes exactly "
+          "that position into a per-record failure; compared on (kind, JSON, checksum). Non-trivial: a split between differently sized "
+          "records, a permutation that moves a record, or a failing replacement not in last position; distinct by SHA-256 of the case."),
+    quick={"checks": 1500, "shards": 4, "timeout": 600},
+    thorough={"checks": 10000, "shards": 16, "timeout": 3000},
+    floors={"permuted": 0.4, "bad-not-last": 0.15, "bad-kind=1": 0.1, "bad-kind=2": 0.01, "bad-kind=3": 0.02, "xform=2": 0.15},
+    assumptions=["schemas address only the record's own data (no '..' / absolute xpaths), as the property's quantifier requires"])
+
+add("C15", "TestC15",
+    rule=("Cases: gen.Shape schema + 0-6 records; history of 0-5 other generated transforms (same or different schema) run in between; "
+          "one third of the cases are also run in a fresh process (the test binary re-executes itself); one leaf value (column or "
+          "sub-record value) of one record is modified. Oracle: byte-identical Read output, error text and checksums for first run / "
+          "run after the other transforms / fresh process; equal raw records <=> equal checksums on the observed set; the modified "
+          "record's checksum changes and no other record's does. Non-trivial: >= 2 records, output object with >= 3 keys and >= 1 other "
+          "transform before the measured one; distinct by SHA-256 of the case."),
+    quick={"checks": 250, "shards": 4, "timeout": 600},
+    thorough={"checks": 3000, "shards": 16, "timeout": 3000},
+    floors={"warmed": 0.5, "fresh-process": 0.2, "leaf-mutation": 0.2},
+    assumptions=["'now' and random scripts are never generated (excluded by the property)",
+                 "leaf mutations are restricted to declared columns / elements, which the raw record is documented to carry"])
+
+add("C17", "TestC17",
+    rule=("Cases: gen.Shape (7 formats) with a pool of 1-5 records (incl. candidates rejected by the FINAL_OUTPUT filter and failing "
+          "records) cycled k times, k from {50..400} mostly, 2000 (8%), 20000 (2%); optional insignificant separators between records "
+          "(blank lines / whitespace). Oracle: size(i) = node count of the whole tree reachable via Parent links from the i-th delivered "
+          "record; max size <= max over the first 8 deliveries + one record; the 2k-record input shows the same maximum as the k-record "
+          "input. Non-trivial: >= 50 delivered records with filtered-out candidates between deliveries; distinct by SHA-256 of the case."),
+    quick={"checks": 150, "shards": 4, "timeout": 900},
+    thorough={"checks": 1500, "shards": 16, "timeout": 3300},
+    floors={"filtered-candidates": 0.3, "sep=1": 0.3, "k>=2000": 0.03},
+    assumptions=["heap size is not used as a verdict; only the size of the reachable node tree"])
+
+add("C18", "TestC18",
+    rule=("Cases: gen.Shape input (7 formats) whose field values carry code points 0x80..0xFF (biased to 0x80-0x9F and the five bytes "
+          "unassigned in windows-1252), written as one byte per code point; encoding iso-8859-1 / windows-1252 / utf-8 (with optional "
+          "BOM); delivered in one chunk or byte by byte. Oracle: transcript(bytes, encoding X) = transcript(code page table applied to "
+          "the bytes, utf-8) with the tables hard-coded in the harness (unassigned cp1252 bytes: U+FFFD or the C1 control accepted); "
+          "utf-8: omitted encoding = utf-8, leading BOM changes nothing and never appears in output. Non-trivial: the input has a byte "
+          ">= 0x80 (or a BOM) and >= 1 record is delivered; distinct by SHA-256 of the case."),
+    quick={"checks": 1500, "shards": 4, "timeout": 600},
+    thorough={"checks": 12000, "shards": 16, "timeout": 3000},
+    floors={"enc=iso-8859-1": 0.25, "enc=windows-1252": 0.25, "enc=utf-8": 0.2, "bytes-80-9F": 0.4, "bom": 0.08},
+    assumptions=["structural bytes of every format are ASCII; only field values carry high bytes"])
+
+META["C10"] = {
+    "technique": "metamorphic property-based testing (concatenation / permutation / replacement of records)",
+    "design_ref": "DESIGN.md §5 C10",
+    "level_text": ("Generated record sequences for all seven formats; the whole-input transcript must equal the concatenation of the "
+                   "single-record transcripts (which implies the concatenation and permutation laws, also checked explicitly), and a "
+                   "failing replacement must change exactly its own position. Exploration over sampled schemas/records."),
+    "level_note": "Trusted: the harness' renderers (records rendered under the same wrapper). Error texts are not compared (positions differ by construction).",
+}
+META["C15"] = {
+    "technique": "metamorphic property-based testing (repeat / warmed process / fresh process) + checksum injectivity on leaf mutations",
+    "design_ref": "DESIGN.md §5 C15",
+    "level_text": ("Byte-identical results and checksums across repetition, after other transforms filled pools/caches and advanced IDs, "
+                   "and in a freshly started process (sampled: each costs a process start); checksum equality/inequality on equal / "
+                   "one-leaf-different raw records. Exploration."),
+    "level_note": "Trusted: nothing beyond the harness' renderers. Fresh-process comparison is sampled (one third of the cases).",
+}
+META["C17"] = {
+    "technique": "metamorphic property-based testing (k vs 2k records) + validity bound on the reachable tree size",
+    "design_ref": "DESIGN.md §5 C17",
+    "level_text": ("For generated record pools repeated k and 2k times the size of the node tree reachable from every delivered record "
+                   "is measured; it must stay under a bound fixed by the first deliveries and must not depend on k. Boundedness is "
+                   "checked up to 40 000 records per run in sampled cases; a leak starting later is out of reach."),
+    "level_note": "Trusted: Parent/child links as the notion of 'retained' (C12 audits the links); heap statistics are not a verdict.",
+}
+META["C18"] = {
+    "technique": "metamorphic property-based testing against hard-coded code pages",
+    "design_ref": "DESIGN.md §5 C18",
+    "level_text": ("Generated single-byte inputs over all byte values for every format; declared-encoding runs must equal runs on the "
+                   "input pre-converted with the harness' own ISO-8859-1 / CP1252 tables; BOM transparency for utf-8. Exploration."),
+    "level_note": "Trusted: the hard-coded CP1252 table (from CP1252.TXT). For the five unassigned bytes both U+FFFD and the C1 control are accepted.",
+}
